@@ -320,10 +320,23 @@ def rx_family(rng, quick):
             mcases.append(sexp.dumps([Sym('rx'), p, pyref.rust_trim(l)]))
             where.append(k)
     mres = aglib.run_model_many(mcases)
+    # the same rows through the model of the STAGE (RegexStage.v: input from the field, trimming, conversion, binding over
+    # existing fields, nodrop) for the cases that read from a field
+    scases, swhere = [], []
+    for k, (p, cre, lines, nodrop, noconv, use_from) in enumerate(pats):
+        if not use_from:
+            continue
+        names = [nm for nm, _i in sorted(cre.groupindex.items(), key=lambda kv: kv[1])]
+        for li, l in enumerate(lines):
+            raw = json.dumps(dict([('msg', l)] + [(nm, 'old') for nm in names]))
+            rec = [Sym('rec'), raw, ['msg', [Sym('s'), l]]] + [[nm, [Sym('s'), 'old']] for nm in names]
+            scases.append(sexp.dumps([Sym('rxstage'), p, [Sym('some'), [Sym('col'), 'msg']], Sym('t' if nodrop else 'f'), Sym('t' if noconv else 'f'), rec]))
+            swhere.append((k, li))
+    sres = dict(zip(swhere, aglib.run_model_many(scases)))
     failures, nontrivial = [], 0
-    stats = {'patterns': len(seen), 'lines': len(mcases), 'model_unsupported': 0, 'model_fuel': 0, 'matches': 0, 'optional_none': 0, 'rejected_by_agrind': 0}
+    stats = {'patterns': len(seen), 'stage_rows': len(scases), 'stage_rows_equal': 0, 'lines': len(mcases), 'model_unsupported': 0, 'model_fuel': 0, 'matches': 0, 'optional_none': 0, 'rejected_by_agrind': 0}
     mi = 0
-    for (p, cre, lines, nodrop, noconv, use_from), job, o in zip(pats, jobs, outs):
+    for pk, ((p, cre, lines, nodrop, noconv, use_from), job, o) in enumerate(zip(pats, jobs, outs)):
         ms = mres[mi:mi + len(lines)]
         mi += len(lines)
         payload = {'query': job[0], 'input_lines': lines}
@@ -380,4 +393,19 @@ def rx_family(rng, quick):
                 stats['python_re_differs_model_agrees'] = stats.get('python_re_differs_model_agrees', 0) + 1
             elif got:
                 nontrivial += 1
+            if use_from and not py_bad:
+                # the stage model row by row
+                want_stage, ok_stage = [], True
+                for li in range(len(lines)):
+                    m = sres.get((pk, li))
+                    if isinstance(m, list) and m and m[0] == 'row':
+                        want_stage.append({item[0]: aglib.model_value(item[1]) for item in m[1][1:]})
+                    elif isinstance(m, list) and m and m[0] == 'dropped':
+                        pass
+                    else:
+                        ok_stage = False
+                if ok_stage and differs(want_stage):
+                    failures.append({'kind': 'corr', 'what': 'parse regex %s from msg on %r: implementation %r, stage model %r' % (p, lines, got[:4], want_stage[:4]), 'payload': payload})
+                elif ok_stage:
+                    stats['stage_rows_equal'] += len(lines)
     return len(mcases), nontrivial, failures, stats
